@@ -11,3 +11,4 @@ INVARIANT AgreesWithPy
 INVARIANT PinSound
 INVARIANT PinClosed
 INVARIANT WhyTotal
+INVARIANT Realisations
